@@ -69,6 +69,15 @@ func observeAll(e error, refs []error, yield bool) string {
 		}
 	}
 	w(fmt.Sprint(extras["error types"]))
+	// the event is the caller's: what it holds besides the message and the exceptions is what a fresh event holds,
+	// and decorating it (as ReportError does before sending) is nobody else's business
+	w(fmt.Sprint(len(ev.Tags), len(ev.Extra), len(ev.Contexts), len(ev.Modules), len(ev.Fingerprint), len(ev.Breadcrumbs)))
+	if ev.Tags != nil {
+		ev.Tags["verif"] = "decorated"
+	}
+	if ev.Extra != nil {
+		ev.Extra["verif"] = 1
+	}
 	return fmt.Sprintf("%x", h.Sum(nil))
 }
 
